@@ -121,9 +121,23 @@ def extract(config, release=False, repo=None, quiet=True, _retry=0):
     epath = os.path.join(fdir, tag + ".err")
     meta = {"config": config, "features": feats, "profile": prof, "tree_hash": th, "cached": False}
     t0 = time.time()
-    lockp = os.path.join(CACHE, "extract-%s-%s.lock" % (config, prof))
-    with open(lockp, "w") as lk:
+    # a few build directories per configuration, so that runs on several scratch trees at once (self-test, stacked test) do not queue behind one lock;
+    # a single run always gets slot 0 (the one setup.sh warms)
+    lk, slot = None, 0
+    if not os.path.exists(fpath):
+        for sl in range(int(os.environ.get("IPCV_SLOTS", "4"))):
+            cand = open(os.path.join(CACHE, "extract-%s-%s%s.lock" % (config, prof, "" if sl == 0 else "-%d" % sl)), "w")
+            try:
+                fcntl.flock(cand, fcntl.LOCK_EX | fcntl.LOCK_NB)
+                lk, slot = cand, sl
+                break
+            except OSError:
+                cand.close()
+    if lk is None:
+        lk = open(os.path.join(CACHE, "extract-%s-%s.lock" % (config, prof)), "w")
         fcntl.flock(lk, fcntl.LOCK_EX)
+        slot = 0
+    with lk:
         if os.path.exists(fpath):
             meta["cached"] = True
         elif os.path.exists(epath):
@@ -133,7 +147,7 @@ def extract(config, release=False, repo=None, quiet=True, _retry=0):
                 log_ = ""
             raise ExtractError(config, "configuration %s does not compile" % config, log_)
         else:
-            target = os.path.join(CACHE, "target-%s" % config)
+            target = os.path.join(CACHE, "target-%s%s" % (config, "" if slot == 0 else "-s%d" % slot))
             # cargo freshness trap: force the workspace member through the wrapper again
             for fp in glob.glob(os.path.join(target, "*", ".fingerprint", "ipc-channel-*")):
                 shutil.rmtree(fp, ignore_errors=True)
